@@ -146,9 +146,12 @@ class RepeatedRawMetaItemWrapper(
 
     def update(self, other=(), /, **kwds):  # type: ignore[no-untyped-def]
         # A mapping is read through keys(): iterating one of these wrappers yields items (their sequence side).
-        if isinstance(other, Mapping):
+        if isinstance(other, Mapping) or hasattr(other, 'keys'):
             other = [(key, other[key]) for key in other.keys()]
-        super().update(other, **kwds)
+        pairs = [*other, *kwds.items()]
+        # Nothing is written if one of the nodes cannot be taken.
+        internal.check_reusable([value for _, value in pairs if isinstance(value, base.RawModel)])
+        super().update(pairs)
 
     def keys(self) -> RepeatedRawMetaKeysView:
         return RepeatedRawMetaKeysView(self)
@@ -304,9 +307,12 @@ class RepeatedMetaItemWrapper(
 
     def update(self, other=(), /, **kwds):  # type: ignore[no-untyped-def]
         # A mapping is read through keys(): iterating one of these wrappers yields items (their sequence side).
-        if isinstance(other, Mapping):
+        if isinstance(other, Mapping) or hasattr(other, 'keys'):
             other = [(key, other[key]) for key in other.keys()]
-        super().update(other, **kwds)
+        pairs = [*other, *kwds.items()]
+        # Nothing is written if one of the nodes cannot be taken.
+        internal.check_reusable([value for _, value in pairs if isinstance(value, base.RawModel)])
+        super().update(pairs)
 
     def keys(self) -> RepeatedMetaKeysView:
         return RepeatedMetaKeysView(self)
